@@ -348,13 +348,24 @@ OrbitWeight == \A i \in 1..Len(kl) : (Live(kl[i]) /\ (CellSymmetric \/ kl[i].lev
 
 (* C06: the cells of the live K-points and of their symmetry images tile the Brillouin zone: every sample point
    (half-integer positions, never on a cell boundary) lies in exactly one of them *)
-InCell1(s, c, w) == ((2 * s + 1 - 2 * c + w + 4 * U) % (2 * U)) < 2 * w
-InCell(s, c, l)  == InCell1(s[1], c[1], Width(l)) /\ (D = 2 => InCell1(s[2], c[2], Width(l)))
-Samples == IF D = 2 THEN (0..(U - 1)) \X (0..(U - 1)) ELSE (0..(U - 1)) \X {0}
 ImagesOf(k) == IF mode.sym THEN Star(k.c) ELSE {k.c}
-LiveImages == UNION { {<<i, c>> : c \in ImagesOf(kl[i])} : i \in {j \in 1..Len(kl) : Live(kl[j])} }
+(* <<index, image cell, cell width>> of every symmetry image of every live K-point *)
+LiveImages == UNION { {<<i, c, Width(kl[i].lev)>> : c \in ImagesOf(kl[i])} : i \in {j \in 1..Len(kl) : Live(kl[j])} }
+(* All cell boundaries are integers (centres are integers, widths are even), so "every point of the zone lies in exactly
+   one image cell" is equivalent to: the image cells are pairwise disjoint and their volumes add up to the zone. *)
+CDist(a, b, u) == LET d == (a - b + 4 * u) % u IN IF d <= u - d THEN d ELSE u - d     \* distance on the circle of length u
+Overlap1(c1, w1, c2, w2, u) == 2 * CDist(c1, c2, u) < w1 + w2
+OverlapW(x, y, u) == Overlap1(x[2][1], x[3], y[2][1], y[3], u) /\ (D = 2 => Overlap1(x[2][2], x[3], y[2][2], y[3], u))
+Vol(w) == IF D = 2 THEN w * w ELSE w
+RECURSIVE VolSum(_, _)
+VolSum(li, lv) == IF lv < 0 THEN 0
+                  ELSE Cardinality({x \in li : x[3] = Width(lv)}) * Vol(Width(lv)) + VolSum(li, lv - 1)
+(* the singleton quantifiers make TLC evaluate U and LiveImages once per state (a definition is re-evaluated at every
+   mention otherwise) *)
 Tiling == (pc # "idle" /\ (CellSymmetric \/ \A i \in 1..Len(kl) : Live(kl[i]) => kl[i].lev = 0)) =>
-   \A s \in Samples : Cardinality({ ic \in LiveImages : InCell(s, ic[2], kl[ic[1]].lev) }) = 1
+   \A u \in {U} : \A li \in {LiveImages} :
+      /\ VolSum(li, LMAX) = Vol(u)
+      /\ \A x \in li : \A y \in li : (x # y) => ~OverlapW(x, y, u)
 
 (* C10: after every update the coefficient of each K-point's result in the integral equals its weight *)
 AfterUpdate == pc \in {"save", "refine", "return"}
